@@ -1178,7 +1178,7 @@ RULES = [
     ("C03-R6", r6_vrs, 22),
     ("C03-R7", r7_eqsine, 7),
     ("C03-R8", r8_peak_selectors, 7),
-    ("C03-R9", c03_frf.rule, 40),
+    ("C03-R9", c03_frf.rule, 50),
 ]
 
 LEVEL = "other"
